@@ -9,7 +9,7 @@ prop(
     stages=[
         dict(run="^TestPropSeries$",
              quick=dict(checks=6400, shards=16, timeout=900),
-             thorough=dict(checks=240000, shards=16, timeout=7200)),
+             thorough=dict(checks=160000, shards=16, timeout=7200)),
     ],
     rule="each case = one rule whose expression is built from 1-3 selectors over metrics foo bar baz and labels a b (all four matcher "
          "types, {__name__=...} form) wrapped in functions / aggregations / comparisons and joined by arithmetic, comparison and `and` "
